@@ -75,7 +75,12 @@ def main():
             c = run([os.path.join(VERIF, "check"), p, "--tier", args.tier, "--repo", dst],
                     env=dict(os.environ, VERIF_REPLAY_DIR=os.path.join(tmp, "replays")))
             viol = [ln for ln in c.stdout.splitlines() if ln.startswith("  monitor=")]
-            caught[p] = {"exit": c.returncode, "first": viol[0].strip()[:220] if viol else ""}
+            import re
+
+            total = sum(int(m) for ln in viol for m in re.findall(r"\((\d+) recorded\)", ln))
+            total += sum(int(m) for m in re.findall(r"violations_not_recorded=(\d+)", c.stdout))
+            caught[p] = {"exit": c.returncode, "violating_cases": total, "kinds": len(viol),
+                         "first": viol[0].strip()[:220] if viol else ""}
         report["checks"] = caught
     finally:
         shutil.rmtree(tmp, ignore_errors=True)
